@@ -155,6 +155,8 @@ def main():
                 bad = True
             if pd.ub_is_known and "UB" in b:
                 bad = False      # handled below as (known) undefined-behaviour finding
+            if pd.skip_model_ub and "UB" in b and "OOB" not in b:
+                bad = False      # input outside the property's hypothesis (an enum-typed field holds an undeclared value)
             if bad:
                 kf = pd.match_known(known, cs, a, c)
                 if kf:
